@@ -1,15 +1,22 @@
 //! engine `db` (C03 / C11 / C13 component level): the real outstation `DatabaseHandle`
 //! (event buffer + static database + response writing) through `hooks/db_probe.rs`
-//! against the Lean model `Dnp3.Model.Database` (driver `Dnp3/Driver/Db.lean`).
+//! against the Lean model `Dnp3.Model.Database` (driver `Dnp3/Driver/Db.lean`), for all eight
+//! point types of the library's database.
 //!
-//! ops:  new <evmax> [<max_read_sel>] | add bin|an <idx> <class> | upd bin|an <idx> <value> <flags> <time>
+//! ops:  new <evmax> [<max_read_sel>]                    binary and analog inputs `evmax` events each
+//!       newc <bin> <dbl> <bos> <ctr> <frz> <an> <aos> <os> <class-zero mask> [<max_read_sel>]
+//!       add <type> <idx> <class> [<svar> <evar> [<deadband>]]   type = bin|dbl|bos|ctr|frz|an|aos|os
+//!       upd <type> <idx> <value> <flags> <time>         value: integer; octet string: hex octets or `-`
+//!       updo <type> <idx> <value> <flags> <time> <opts> the same with `UpdateOptions` number <opts>: 0..2 = Detect /
+//!                                                       Force / Suppress, +3 = `update_static` false
 //!       select <hex of READ object headers> | write <cap> | unsol <c1c2c3 bits> <cap> | clear | reset | iin
 //! out:  add true|false | upd nopoint|noevent|created <id>|overflow <created> <discarded>
 //!       sel <iin2> | parse-error | resp <hex> <has_events> <complete> | unsol <hex> <count>
 //!       cleared <ids|-> <c1> <c2> <c3> | iin <c1c2c3> <ovf> | panic | ok
 //!
 //! Monitors (reference bookkeeping below is independent of the library and of the Lean model):
-//!   event ledger (C03), static coverage / snapshot (C11), class bits + overflow flag (C13).
+//!   event ledger (C03), the event rule `event_iff_beyond_deadband_of_last_reported` (C03 / C02), static
+//!   coverage / snapshot (C11), class bits + overflow flag (C13).
 use crate::rng::Rng;
 use crate::util::*;
 use dnp3::verif_hooks::db_probe::DbProbe;
@@ -17,8 +24,102 @@ use std::collections::BTreeMap;
 use std::io::Write;
 
 // ------------------------------------------------------------------------------------------
-// reference encoders (C10-style `carry`): what a variation shows of a measurement
+// the point types and the reference encoders (C10-style `carry`): what a variation shows of a
+// measurement.  Shared with the outstation engine's database monitors.
 // ------------------------------------------------------------------------------------------
+#[derive(Clone, Copy, PartialEq, Eq, Debug, Hash, PartialOrd, Ord)]
+pub enum Ty {
+    Bin,
+    Dbl,
+    Bos,
+    Ctr,
+    Frz,
+    An,
+    Aos,
+    Os,
+}
+
+impl Ty {
+    pub const ALL: [Ty; 8] = [Ty::Bin, Ty::Dbl, Ty::Bos, Ty::Ctr, Ty::Frz, Ty::An, Ty::Aos, Ty::Os];
+    pub fn idx(self) -> usize {
+        self as usize
+    }
+    pub fn code(self) -> &'static str {
+        ["bin", "dbl", "bos", "ctr", "frz", "an", "aos", "os"][self.idx()]
+    }
+    pub fn from_code(s: &str) -> Option<Ty> {
+        Ty::ALL.iter().copied().find(|t| t.code() == s)
+    }
+    pub fn static_group(self) -> u8 {
+        [1, 3, 10, 20, 21, 30, 40, 110][self.idx()]
+    }
+    pub fn event_group(self) -> u8 {
+        [2, 4, 11, 22, 23, 32, 42, 111][self.idx()]
+    }
+    pub fn from_static_group(g: u8) -> Option<Ty> {
+        Ty::ALL.iter().copied().find(|t| t.static_group() == g)
+    }
+    pub fn from_event_group(g: u8) -> Option<Ty> {
+        Ty::ALL.iter().copied().find(|t| t.event_group() == g)
+    }
+    /// the static variations a point of this type can be configured with / asked for (octet strings: none)
+    pub fn static_vars(self) -> &'static [u8] {
+        match self {
+            Ty::Bin | Ty::Dbl | Ty::Bos => &[1, 2],
+            Ty::Ctr => &[1, 2, 5, 6],
+            Ty::Frz => &[1, 2, 5, 6, 9, 10],
+            Ty::An => &[1, 2, 3, 4, 5, 6],
+            Ty::Aos => &[1, 2, 3, 4],
+            Ty::Os => &[],
+        }
+    }
+    pub fn event_vars(self) -> &'static [u8] {
+        match self {
+            Ty::Bin | Ty::Dbl => &[1, 2, 3],
+            Ty::Bos => &[1, 2],
+            Ty::Ctr | Ty::Frz => &[1, 2, 5, 6],
+            Ty::An | Ty::Aos => &[1, 2, 3, 4, 5, 6, 7, 8],
+            Ty::Os => &[],
+        }
+    }
+    /// the configuration a plain `add <type> <idx> <class>` uses (static, event)
+    pub fn add_vars(self) -> (u8, u8) {
+        match self {
+            Ty::Bin => (2, 1),
+            Ty::Bos => (1, 2),
+            Ty::Os => (0, 0),
+            _ => (1, 1),
+        }
+    }
+}
+
+/// a measurement as the harness put it in
+#[derive(Clone, Debug, PartialEq)]
+pub struct Val {
+    pub v: i64,
+    pub flags: u8,
+    pub time: u64,
+    pub octets: Vec<u8>,
+}
+
+impl Val {
+    /// `T::default()`: RESTART, value 0 (double bit: indeterminate), octet string [0]
+    pub fn default_of(ty: Ty) -> Val {
+        Val { v: if ty == Ty::Dbl { 3 } else { 0 }, flags: 0x02, time: 0, octets: if ty == Ty::Os { vec![0] } else { vec![] } }
+    }
+}
+
+/// the value the library stores for an update with this integer
+pub fn norm_value(ty: Ty, v: i64) -> i64 {
+    match ty {
+        Ty::Bin | Ty::Bos => (v != 0) as i64,
+        Ty::Dbl => v & 3,
+        Ty::Ctr | Ty::Frz => v as u32 as i64,
+        Ty::An | Ty::Aos => v,
+        Ty::Os => 0,
+    }
+}
+
 fn sat(v: i64, bits: u32) -> (i64, bool) {
     let lo = -(1i64 << (bits - 1));
     let hi = (1i64 << (bits - 1)) - 1;
@@ -35,8 +136,13 @@ fn le48(t: u64) -> Vec<u8> {
     t.to_le_bytes()[..6].to_vec()
 }
 
-fn bin_wire(value: i64, flags: u8) -> u8 {
-    (flags & 0x7F) | if value != 0 { 0x80 } else { 0 }
+/// flags octet with the state folded in (binary: bit 7; double bit: bits 7..6)
+pub fn wire_flags(ty: Ty, x: &Val) -> u8 {
+    match ty {
+        Ty::Bin | Ty::Bos => (x.flags & 0x7F) | if x.v != 0 { 0x80 } else { 0 },
+        Ty::Dbl => (x.flags & 0x3F) | (((x.v & 3) as u8) << 6),
+        _ => x.flags,
+    }
 }
 
 fn analog_int(v: i64, flags: u8, bits: u32, with_flags: bool) -> Vec<u8> {
@@ -66,51 +172,105 @@ fn analog_f64(v: i64, flags: u8) -> Vec<u8> {
     out
 }
 
+fn counter_obj(v: i64, flags: Option<u8>, bits: u32) -> Vec<u8> {
+    let mut out = Vec::new();
+    if let Some(f) = flags {
+        out.push(f);
+    }
+    if bits == 32 {
+        out.extend_from_slice(&(v as u32).to_le_bytes());
+    } else {
+        out.extend_from_slice(&(v as u32 as u16).to_le_bytes());
+    }
+    out
+}
+
+/// flags + value of the analog event variations 1..8 / of g30 / g40 by their representation
+fn analog_repr(repr: u8, x: &Val) -> Vec<u8> {
+    match repr {
+        0 => analog_int(x.v, x.flags, 32, true),
+        1 => analog_int(x.v, x.flags, 16, true),
+        2 => analog_f32(x.v, x.flags),
+        _ => analog_f64(x.v, x.flags),
+    }
+}
+
 /// octets of one event object (without index prefix); `cto` = time of the preceding g51 header
-fn ref_event_obj(analog: bool, var: u8, value: i64, flags: u8, time: u64, cto: Option<u64>) -> Option<Vec<u8>> {
-    let t = time & 0xFFFF_FFFF_FFFF;
-    Some(match (analog, var) {
-        (false, 1) => vec![bin_wire(value, flags)],
-        (false, 2) => [vec![bin_wire(value, flags)], le48(t)].concat(),
-        (false, 3) => {
+pub fn ref_event_obj(ty: Ty, var: u8, x: &Val, cto: Option<u64>) -> Option<Vec<u8>> {
+    let t = x.time & 0xFFFF_FFFF_FFFF;
+    let with_time = |mut b: Vec<u8>| {
+        b.extend(le48(t));
+        b
+    };
+    Some(match (ty, var) {
+        (Ty::Bin | Ty::Dbl | Ty::Bos, 1) => vec![wire_flags(ty, x)],
+        (Ty::Bin | Ty::Dbl | Ty::Bos, 2) => with_time(vec![wire_flags(ty, x)]),
+        (Ty::Bin | Ty::Dbl, 3) => {
             let c = cto?;
             if t < c || t - c > 65535 {
                 return None;
             }
-            [vec![bin_wire(value, flags)], ((t - c) as u16).to_le_bytes().to_vec()].concat()
+            [vec![wire_flags(ty, x)], ((t - c) as u16).to_le_bytes().to_vec()].concat()
         }
-        (true, 1) => analog_int(value, flags, 32, true),
-        (true, 2) => analog_int(value, flags, 16, true),
-        (true, 3) => [analog_int(value, flags, 32, true), le48(t)].concat(),
-        (true, 4) => [analog_int(value, flags, 16, true), le48(t)].concat(),
-        (true, 5) => analog_f32(value, flags),
-        (true, 6) => analog_f64(value, flags),
-        (true, 7) => [analog_f32(value, flags), le48(t)].concat(),
-        (true, 8) => [analog_f64(value, flags), le48(t)].concat(),
+        (Ty::Ctr | Ty::Frz, 1) => counter_obj(x.v, Some(x.flags), 32),
+        (Ty::Ctr | Ty::Frz, 2) => counter_obj(x.v, Some(x.flags), 16),
+        (Ty::Ctr | Ty::Frz, 5) => with_time(counter_obj(x.v, Some(x.flags), 32)),
+        (Ty::Ctr | Ty::Frz, 6) => with_time(counter_obj(x.v, Some(x.flags), 16)),
+        (Ty::An | Ty::Aos, 1) => analog_repr(0, x),
+        (Ty::An | Ty::Aos, 2) => analog_repr(1, x),
+        (Ty::An | Ty::Aos, 3) => with_time(analog_repr(0, x)),
+        (Ty::An | Ty::Aos, 4) => with_time(analog_repr(1, x)),
+        (Ty::An | Ty::Aos, 5) => analog_repr(2, x),
+        (Ty::An | Ty::Aos, 6) => analog_repr(3, x),
+        (Ty::An | Ty::Aos, 7) => with_time(analog_repr(2, x)),
+        (Ty::An | Ty::Aos, 8) => with_time(analog_repr(3, x)),
+        (Ty::Os, n) if n as usize == x.octets.len() => x.octets.clone(),
         _ => return None,
     })
 }
 
-fn ev_obj_size(g: u8, v: u8) -> Option<usize> {
+pub fn ev_obj_size(g: u8, v: u8) -> Option<usize> {
     Some(match (g, v) {
-        (2, 1) => 1,
-        (2, 2) => 7,
-        (2, 3) => 3,
-        (32, 1) => 5,
-        (32, 2) => 3,
-        (32, 3) => 11,
-        (32, 4) => 9,
-        (32, 5) => 5,
-        (32, 6) => 9,
-        (32, 7) => 11,
-        (32, 8) => 15,
+        (2 | 4 | 11, 1) => 1,
+        (2 | 4 | 11, 2) => 7,
+        (2 | 4, 3) => 3,
+        (22 | 23, 1) => 5,
+        (22 | 23, 2) => 3,
+        (22 | 23, 5) => 11,
+        (22 | 23, 6) => 9,
+        (32 | 42, 1) => 5,
+        (32 | 42, 2) => 3,
+        (32 | 42, 3) => 11,
+        (32 | 42, 4) => 9,
+        (32 | 42, 5) => 5,
+        (32 | 42, 6) => 9,
+        (32 | 42, 7) => 11,
+        (32 | 42, 8) => 15,
+        (111, n) => n as usize,
         _ => return None,
     })
 }
 
-fn st_obj_size(g: u8, v: u8) -> Option<usize> {
+/// bits per value of the packed static variations (0 = not packed)
+pub fn pack_width(g: u8, v: u8) -> usize {
+    match (g, v) {
+        (1, 1) | (10, 1) => 1,
+        (3, 1) => 2,
+        _ => 0,
+    }
+}
+
+pub fn st_obj_size(g: u8, v: u8) -> Option<usize> {
     Some(match (g, v) {
-        (1, 2) => 1,
+        (1 | 3 | 10, 2) => 1,
+        (20 | 21, 1) => 5,
+        (20 | 21, 2) => 3,
+        (20, 5) => 4,
+        (20, 6) => 2,
+        (21, 5) => 11,
+        (21, 6) => 9,
+        (21, 9) => 4,
+        (21, 10) => 2,
         (30, 1) => 5,
         (30, 2) => 3,
         (30, 3) => 4,
@@ -120,24 +280,78 @@ fn st_obj_size(g: u8, v: u8) -> Option<usize> {
         (34, 1) => 2,
         (34, 2) => 4,
         (34, 3) => 4,
+        (40, 1) => 5,
+        (40, 2) => 3,
+        (40, 3) => 5,
+        (40, 4) => 9,
+        (110, n) => n as usize,
         _ => return None,
     })
 }
 
-/// octets of one static object (g1v1: a single octet 0/1 standing for the bit)
-fn ref_static_obj(g: u8, v: u8, value: i64, flags: u8) -> Vec<u8> {
+/// octets of one static object (packed variations: a single octet holding the bit / the two bits)
+pub fn ref_static_obj(g: u8, v: u8, x: &Val) -> Vec<u8> {
+    let t = x.time & 0xFFFF_FFFF_FFFF;
     match (g, v) {
-        (1, 1) => vec![(value != 0) as u8],
-        (1, 2) => vec![bin_wire(value, flags)],
-        (30, 1) => analog_int(value, flags, 32, true),
-        (30, 2) => analog_int(value, flags, 16, true),
-        (30, 3) => analog_int(value, flags, 32, false),
-        (30, 4) => analog_int(value, flags, 16, false),
-        (30, 5) => analog_f32(value, flags),
-        (30, 6) => analog_f64(value, flags),
-        (34, 1) => vec![0; 2],
-        (34, 2) | (34, 3) => vec![0; 4],
+        (1, 1) | (10, 1) => vec![(x.v != 0) as u8],
+        (3, 1) => vec![(x.v & 3) as u8],
+        (1, 2) => vec![wire_flags(Ty::Bin, x)],
+        (3, 2) => vec![wire_flags(Ty::Dbl, x)],
+        (10, 2) => vec![wire_flags(Ty::Bos, x)],
+        (20 | 21, 1) => counter_obj(x.v, Some(x.flags), 32),
+        (20 | 21, 2) => counter_obj(x.v, Some(x.flags), 16),
+        (20, 5) | (21, 9) => counter_obj(x.v, None, 32),
+        (20, 6) | (21, 10) => counter_obj(x.v, None, 16),
+        (21, 5) => [counter_obj(x.v, Some(x.flags), 32), le48(t)].concat(),
+        (21, 6) => [counter_obj(x.v, Some(x.flags), 16), le48(t)].concat(),
+        (30, 1) | (40, 1) => analog_repr(0, x),
+        (30, 2) | (40, 2) => analog_repr(1, x),
+        (30, 3) => analog_int(x.v, x.flags, 32, false),
+        (30, 4) => analog_int(x.v, x.flags, 16, false),
+        (30, 5) | (40, 3) => analog_repr(2, x),
+        (30, 6) | (40, 4) => analog_repr(3, x),
+        // analog dead-bands (`x.v` = the configured dead-band): clamped to u16 / u32, or as f32
+        (34, 1) => (x.v.clamp(0, u16::MAX as i64) as u16).to_le_bytes().to_vec(),
+        (34, 2) => (x.v.clamp(0, u32::MAX as i64) as u32).to_le_bytes().to_vec(),
+        (34, 3) => ((x.v as f64) as f32).to_le_bytes().to_vec(),
+        (110, _) => x.octets.clone(),
         _ => vec![],
+    }
+}
+
+/// does the type's detector have a dead-band (counters, analogs)?
+pub fn has_deadband(ty: Ty) -> bool {
+    matches!(ty, Ty::Ctr | Ty::Frz | Ty::An | Ty::Aos)
+}
+
+/// the event rule (`EventMode::Detect`): an update owes an event iff the flags as reported changed, or the value
+/// differs from the value LAST REPORTED as an event by more than the dead-band (binary types: the state is part
+/// of the flags; octet strings: the octets differ)
+pub fn owes_event(ty: Ty, deadband: u64, last_reported: &Val, new: &Val) -> bool {
+    match ty {
+        Ty::Bin | Ty::Dbl | Ty::Bos => wire_flags(ty, last_reported) != wire_flags(ty, new),
+        Ty::Os => last_reported.octets != new.octets,
+        _ => new.flags != last_reported.flags || (new.v as i128 - last_reported.v as i128).unsigned_abs() > deadband as u128,
+    }
+}
+
+/// the (group, variation) a point is reported with: requested variation (0 = the configured one), the
+/// packed variation 1 of g1 / g3 / g10 only for flags that are plain ONLINE, an octet string's length
+pub fn static_variation(ty: Ty, requested: u8, configured: u8, x: &Val) -> (u8, u8) {
+    let g = ty.static_group();
+    if ty == Ty::Os {
+        return (g, x.octets.len() as u8);
+    }
+    let want = if requested == 0 { configured } else { requested };
+    let state_mask: u8 = match ty {
+        Ty::Bin | Ty::Bos => 0x7F,
+        Ty::Dbl => 0x3F,
+        _ => 0xFF,
+    };
+    if matches!(ty, Ty::Bin | Ty::Bos | Ty::Dbl) && want == 1 && (x.flags & state_mask) != 0x01 {
+        (g, 2)
+    } else {
+        (g, want)
     }
 }
 
@@ -145,32 +359,32 @@ fn ref_static_obj(g: u8, v: u8, value: i64, flags: u8) -> Vec<u8> {
 // reference parser of the object part of a response
 // ------------------------------------------------------------------------------------------
 #[derive(Debug, Clone, PartialEq)]
-struct EvObj {
-    g: u8,
-    v: u8,
-    idx: u16,
-    raw: Vec<u8>,
-    cto: Option<u64>,
+pub struct EvObj {
+    pub g: u8,
+    pub v: u8,
+    pub idx: u16,
+    pub raw: Vec<u8>,
+    pub cto: Option<u64>,
 }
 
 #[derive(Debug, Clone, PartialEq)]
-struct StObj {
-    g: u8,
-    v: u8,
-    idx: u16,
-    raw: Vec<u8>,
+pub struct StObj {
+    pub g: u8,
+    pub v: u8,
+    pub idx: u16,
+    pub raw: Vec<u8>,
 }
 
-struct ParsedResp {
-    events: Vec<EvObj>,
-    statics: Vec<StObj>,
+pub struct ParsedResp {
+    pub events: Vec<EvObj>,
+    pub statics: Vec<StObj>,
     /// an event object after a static object
-    events_after_static: bool,
+    pub events_after_static: bool,
     /// (g, v, start, stop) of every range header
-    ranges: Vec<(u8, u8, u16, u16)>,
+    pub ranges: Vec<(u8, u8, u16, u16)>,
 }
 
-fn parse_response(b: &[u8]) -> Result<ParsedResp, String> {
+pub fn parse_response(b: &[u8]) -> Result<ParsedResp, String> {
     let mut r = ParsedResp { events: vec![], statics: vec![], events_after_static: false, ranges: vec![] };
     let mut i = 0usize;
     let mut cto: Option<u64> = None;
@@ -218,15 +432,17 @@ fn parse_response(b: &[u8]) -> Result<ParsedResp, String> {
                 }
                 r.ranges.push((g, v, start, stop));
                 let n = stop as usize - start as usize + 1;
-                if (g, v) == (1, 1) {
-                    let nb = n.div_ceil(8);
+                let w = pack_width(g, v);
+                if w != 0 {
+                    let per = 8 / w;
+                    let nb = n.div_ceil(per);
                     need(i, nb)?;
                     for k in 0..n {
-                        let bit = (b[i + k / 8] >> (k % 8)) & 1;
-                        r.statics.push(StObj { g, v, idx: start + k as u16, raw: vec![bit] });
+                        let val = (b[i + k / per] >> ((k % per) * w)) & ((1u8 << w) - 1);
+                        r.statics.push(StObj { g, v, idx: start + k as u16, raw: vec![val] });
                     }
                     // padding bits must be zero
-                    if n % 8 != 0 && (b[i + nb - 1] >> (n % 8)) != 0 {
+                    if n % per != 0 && (b[i + nb - 1] >> ((n % per) * w)) != 0 {
                         return Err("non-zero padding bits".into());
                     }
                     i += nb;
@@ -258,47 +474,40 @@ enum LState {
 #[derive(Clone, Debug)]
 struct LedgerEv {
     id: u64,
-    analog: bool,
+    ty: Ty,
     index: u16,
-    value: i64,
-    flags: u8,
-    time: u64,
+    val: Val,
     class: u8,
     state: LState,
     /// carried by a response since the last reset (library state `Written`)
     carried: bool,
 }
 
-#[derive(Clone, Copy, Debug)]
+#[derive(Clone, Debug)]
 struct RefPoint {
     class: u8,
-    value: i64,
-    flags: u8,
+    val: Val,
+    /// the value last reported as an event (the detector's baseline)
+    last_reported: Val,
+    deadband: u64,
+    svar: u8,
     /// op number at which the point was added
+    #[allow(dead_code)]
     added_at: usize,
-}
-
-/// one expected static object of the current series
-#[derive(Debug, Clone, PartialEq)]
-struct Expected {
-    g: u8,
-    v: u8,
-    idx: u16,
-    raw: Vec<u8>,
 }
 
 #[derive(Default)]
 struct Reference {
-    ev_max: u64,
-    bins: BTreeMap<u16, RefPoint>,
-    ans: BTreeMap<u16, RefPoint>,
+    ev_max: [u64; 8],
+    class_zero: u8,
+    pts: [BTreeMap<u16, RefPoint>; 8],
     ledger: Vec<LedgerEv>,
     overflow_flag: bool,
     /// an overflow discarded an event that a response had carried and no clear / reset had
     /// followed (the cause predicate of D3)
     d3_happened: bool,
     // static series
-    expected: Vec<Expected>,
+    expected: Vec<StObj>,
     got: Vec<StObj>,
     series_open: bool,
     series_unreliable: bool,
@@ -306,13 +515,16 @@ struct Reference {
     series_dirty: bool,
     series_start_op: usize,
     /// a point was added inside a selected range while the series was open (cause predicate of D12)
-    d12_points: Vec<(bool, u16)>,
-    selected_ranges: Vec<(bool, u16, u16)>,
+    d12_points: Vec<(Ty, u16)>,
+    selected_ranges: Vec<(Ty, u16, u16)>,
 }
 
 impl Reference {
-    fn live_of_type(&self, analog: bool) -> usize {
-        self.ledger.iter().filter(|e| e.state == LState::Live && e.analog == analog).count()
+    fn live_of_type(&self, ty: Ty) -> usize {
+        self.ledger.iter().filter(|e| e.state == LState::Live && e.ty == ty).count()
+    }
+    fn any_type_full(&self) -> bool {
+        Ty::ALL.iter().any(|t| self.ev_max[t.idx()] != 0 && self.live_of_type(*t) as u64 >= self.ev_max[t.idx()])
     }
     fn end_series(&mut self) {
         self.expected.clear();
@@ -346,7 +558,7 @@ impl<'a> Mon<'a> {
 }
 
 /// headers of a select op, decoded for the static-coverage reference (only what it needs)
-fn static_headers(bytes: &[u8]) -> Vec<(u8, u8, u8, u16, u16)> {
+pub fn static_headers(bytes: &[u8]) -> Vec<(u8, u8, u8, u16, u16)> {
     let mut res = Vec::new();
     let mut i = 0;
     while i + 3 <= bytes.len() {
@@ -381,8 +593,12 @@ impl Reference {
     /// expected objects of one accepted static header, from the reference database NOW
     fn expect_header(&mut self, g: u8, v: u8, q: u8, a: u16, b: u16) {
         let all = q == 0x06;
-        let push_type = |this: &mut Reference, analog: bool, gg: u8, vv: u8| {
-            let map = if analog { &this.ans } else { &this.bins };
+        let ranged = q == 0x00 || q == 0x01;
+        if !(all || ranged) {
+            return;
+        }
+        let push_type = |this: &mut Reference, ty: Ty, req: u8, deadband: bool| {
+            let map = &this.pts[ty.idx()];
             let (lo, hi) = if all {
                 match (map.keys().next(), map.keys().next_back()) {
                     (Some(l), Some(h)) => (*l, *h),
@@ -391,34 +607,31 @@ impl Reference {
             } else {
                 (a, b)
             };
-            this.selected_ranges.push((analog, lo, hi));
-            let items: Vec<(u16, RefPoint)> = map.range(lo..=hi).map(|(k, p)| (*k, *p)).collect();
+            this.selected_ranges.push((ty, lo, hi));
+            let items: Vec<(u16, RefPoint)> = map.range(lo..=hi).map(|(k, p)| (*k, p.clone())).collect();
             for (idx, p) in items {
-                let (eg, ev) = if gg == 1 {
-                    // requested g1v1 is promoted to g1v2 when the flags are not plain ONLINE
-                    let want = if vv == 0 { 2 } else { vv };
-                    if want == 1 && (p.flags & 0x7F) != 0x01 {
-                        (1, 2)
-                    } else {
-                        (1, want)
-                    }
-                } else if gg == 30 {
-                    (30, if vv == 0 { 1 } else { vv })
+                if deadband {
+                    let ev = if req == 0 { 3 } else { req };
+                    let db = Val { v: p.deadband as i64, flags: 0, time: 0, octets: vec![] };
+                    this.expected.push(StObj { g: 34, v: ev, idx, raw: ref_static_obj(34, ev, &db) });
                 } else {
-                    (34, if vv == 0 { 3 } else { vv })
-                };
-                this.expected.push(Expected { g: eg, v: ev, idx, raw: ref_static_obj(eg, ev, p.value, p.flags) });
+                    let (eg, ev) = static_variation(ty, req, p.svar, &p.val);
+                    this.expected.push(StObj { g: eg, v: ev, idx, raw: ref_static_obj(eg, ev, &p.val) });
+                }
             }
         };
-        match (g, v) {
-            (60, 1) => {
-                push_type(self, false, 1, 0);
-                push_type(self, true, 30, 0);
+        if (g, v) == (60, 1) {
+            for ty in Ty::ALL {
+                if self.class_zero & (1 << ty.idx()) != 0 {
+                    push_type(self, ty, 0, false);
+                }
             }
-            (1, _) => push_type(self, false, 1, v),
-            (30, _) => push_type(self, true, 30, v),
-            (34, _) => push_type(self, true, 34, v),
-            _ => {}
+        } else if g == 34 {
+            push_type(self, Ty::An, v, true);
+        } else if let Some(ty) = Ty::from_static_group(g) {
+            if ty != Ty::Os || v == 0 {
+                push_type(self, ty, v, false);
+            }
         }
     }
 }
@@ -436,7 +649,7 @@ pub fn run(ops: &str, out: &mut dyn Write, mon_w: &mut dyn Write) {
         stats.hit(&format!("kind_{kind}"));
         stats.note_case(&lines.join("\n"));
         let mut probe = DbProbe::new(0, None);
-        let mut rf = Reference::default();
+        let mut rf = Reference { class_zero: 0x7F, ..Default::default() };
         let mut dead = false;
         for (opn, line) in lines.iter().enumerate() {
             let ws: Vec<&str> = line.split_whitespace().collect();
@@ -463,20 +676,50 @@ pub fn run(ops: &str, out: &mut dyn Write, mon_w: &mut dyn Write) {
                     let ev: u16 = rest[0].parse().unwrap();
                     let sel: Option<u16> = rest.get(1).map(|s| s.parse().unwrap());
                     probe = DbProbe::new(ev, sel);
-                    rf = Reference { ev_max: ev as u64, ..Default::default() };
+                    let mut ev_max = [0u64; 8];
+                    ev_max[Ty::Bin.idx()] = ev as u64;
+                    ev_max[Ty::An.idx()] = ev as u64;
+                    rf = Reference { ev_max, class_zero: 0x7F, ..Default::default() };
                     dead = false;
                     m.stats.hit(&format!("evmax_{}", if ev > 5 { "big".to_string() } else { ev.to_string() }));
                     writeln!(out, "ok").unwrap();
                 }
-                ["add", t, idx, cls] => {
-                    let analog = *t == "an";
+                ["newc", rest @ ..] if rest.len() == 9 || rest.len() == 10 => {
+                    let n: Vec<u64> = rest.iter().map(|s| s.parse().unwrap()).collect();
+                    let mut ev = [0u16; 8];
+                    let mut ev_max = [0u64; 8];
+                    for i in 0..8 {
+                        ev[i] = n[i] as u16;
+                        ev_max[i] = n[i];
+                    }
+                    let cz = n[8] as u8;
+                    probe = DbProbe::new_cfg(ev, cz, n.get(9).map(|x| *x as u16));
+                    rf = Reference { ev_max, class_zero: cz, ..Default::default() };
+                    dead = false;
+                    let distinct: std::collections::BTreeSet<u64> = ev_max.iter().copied().collect();
+                    m.stats.hit(&format!("evcfg_{}_distinct_maxima", distinct.len()));
+                    m.stats.hit(if cz == 0x7F { "class_zero_default" } else { "class_zero_other" });
+                    writeln!(out, "ok").unwrap();
+                }
+                ["add", t, idx, cls, rest @ ..] if rest.is_empty() || rest.len() == 2 || rest.len() == 3 => {
+                    let ty = Ty::from_code(t).unwrap();
                     let idx: u16 = idx.parse().unwrap();
                     let cls: u8 = cls.parse().unwrap();
-                    match probe.add(analog, idx, cls) {
-                        Err(()) => panicked!(),
-                        Ok(r) => {
+                    let (sv, ev) = if rest.is_empty() { ty.add_vars() } else { (rest[0].parse().unwrap(), rest[1].parse().unwrap()) };
+                    let deadband: u32 = rest.get(2).map(|x| x.parse().unwrap()).unwrap_or(0);
+                    m.stats.hit(&format!("add_{}", ty.code()));
+                    if deadband != 0 {
+                        m.stats.hit("add_with_deadband");
+                    }
+                    match probe.add_typed(ty.idx() as u8, idx, cls, sv, ev, deadband) {
+                        None => {
+                            writeln!(out, "bad-op").unwrap();
+                            continue;
+                        }
+                        Some(Err(())) => panicked!(),
+                        Some(Ok(r)) => {
                             writeln!(out, "add {r}").unwrap();
-                            let map = if analog { &mut rf.ans } else { &mut rf.bins };
+                            let map = &mut rf.pts[ty.idx()];
                             let fresh = !map.contains_key(&idx);
                             if fresh != r {
                                 m.fail("add_result", None, &format!("op {opn}: add returned {r}, point {}", if fresh { "was new" } else { "existed" }));
@@ -484,58 +727,103 @@ pub fn run(ops: &str, out: &mut dyn Write, mon_w: &mut dyn Write) {
                             if fresh {
                                 rf.series_dirty = true;
                                 let class = if (1..=3).contains(&cls) { cls } else { 0 };
-                                map.insert(idx, RefPoint { class, value: 0, flags: 0x02, added_at: opn });
-                                if rf.series_open && rf.selected_ranges.iter().any(|(a, lo, hi)| *a == analog && *lo <= idx && idx <= *hi) {
-                                    rf.d12_points.push((analog, idx));
+                                map.insert(idx, RefPoint { class, val: Val::default_of(ty), last_reported: Val::default_of(ty), deadband: if has_deadband(ty) { deadband as u64 } else { 0 }, svar: sv, added_at: opn });
+                                if rf.series_open && rf.selected_ranges.iter().any(|(a, lo, hi)| *a == ty && *lo <= idx && idx <= *hi) {
+                                    rf.d12_points.push((ty, idx));
                                 }
                             }
                         }
                     }
                     writeln!(out, "ok").unwrap();
                 }
-                ["upd", t, idx, value, flags, time] => {
-                    let analog = *t == "an";
+                ["upd", t, idx, value, flags, time] | ["updo", t, idx, value, flags, time, _] => {
+                    let ty = Ty::from_code(t).unwrap();
                     let idx: u16 = idx.parse().unwrap();
-                    let value: i64 = value.parse().unwrap();
                     let flags: u8 = flags.parse().unwrap();
                     let time: u64 = time.parse().unwrap();
-                    let res = match probe.update(analog, idx, value, flags, time) {
-                        Err(()) => panicked!(),
-                        Ok(s) => s,
+                    let opts: u8 = ws.get(6).map(|x| x.parse().unwrap()).unwrap_or(0);
+                    let (update_static, mode) = (opts % 6 < 3, opts % 3); // mode: 0 Detect, 1 Force, 2 Suppress
+                    m.stats.hit(&format!("upd_mode_{}{}", ["detect", "force", "suppress"][mode as usize], if update_static { "" } else { "_nostatic" }));
+                    let (value, octets): (i64, Vec<u8>) = if ty == Ty::Os { (0, unhex(value)) } else { (value.parse().unwrap(), vec![]) };
+                    let res = match probe.update_typed(ty.idx() as u8, idx, value, &octets, flags, time, opts) {
+                        None => {
+                            writeln!(out, "bad-op").unwrap();
+                            continue;
+                        }
+                        Some(Err(())) => panicked!(),
+                        Some(Ok(s)) => s,
                     };
                     writeln!(out, "upd {res}").unwrap();
-                    let value = if analog { value } else { (value != 0) as i64 };
+                    let val = if ty == Ty::Os {
+                        Val { v: 0, flags: 0, time: 0, octets }
+                    } else {
+                        Val { v: norm_value(ty, value), flags, time, octets: vec![] }
+                    };
                     let p: Vec<&str> = res.split_whitespace().collect();
                     m.stats.hit(&format!("upd_{}", p[0]));
+                    m.stats.hit(&format!("upd_{}_{}", ty.code(), p[0]));
                     rf.series_dirty = true;
-                    let map = if analog { &mut rf.ans } else { &mut rf.bins };
-                    let point = map.get_mut(&idx).map(|pt| {
-                        pt.value = value;
-                        pt.flags = flags;
-                        *pt
+                    // ---- the event rule: Suppress never, Force always, Detect iff the flags changed or the value is
+                    // beyond the dead-band of the value LAST REPORTED; that baseline moves only with an event
+                    let mut owed: Option<bool> = None;
+                    let point = rf.pts[ty.idx()].get_mut(&idx).map(|pt| {
+                        let detect = owes_event(ty, pt.deadband, &pt.last_reported, &val);
+                        let wants = match mode {
+                            0 => detect,
+                            1 => true,
+                            _ => false,
+                        };
+                        owed = Some(wants);
+                        if mode == 0 && pt.deadband != 0 {
+                            let d = (val.v as i128 - pt.last_reported.v as i128).unsigned_abs();
+                            let k = if d > pt.deadband as u128 { "beyond" } else if d == pt.deadband as u128 { "at" } else { "within" };
+                            m.stats.hit(&format!("deadband_{k}"));
+                        }
+                        if update_static {
+                            pt.val = val.clone();
+                        }
+                        if wants {
+                            pt.last_reported = val.clone();
+                        }
+                        pt.clone()
                     });
+                    if let (Some(wants), Some(pt)) = (owed, &point) {
+                        let recordable = pt.class != 0 && rf.ev_max[ty.idx()] != 0;
+                        let got_event = p[0] == "created" || p[0] == "overflow";
+                        if got_event != (wants && recordable) {
+                            m.fail(
+                                "event_iff_beyond_deadband_of_last_reported",
+                                None,
+                                &format!("op {opn}: {res}; {} point {idx} dead-band {} mode {mode}: an event is {}owed (class {}, type maximum {})", ty.code(), pt.deadband, if wants { "" } else { "not " }, pt.class, rf.ev_max[ty.idx()]),
+                            );
+                        } else {
+                            m.stats.hit("event_rule_checked");
+                        }
+                    }
                     match (p[0], point) {
                         ("nopoint", None) => {}
-                        ("nopoint", Some(_)) | (_, None) => m.fail("update_result", None, &format!("op {opn}: {res} but point exists={}", point.is_some())),
+                        ("nopoint", Some(_)) => m.fail("update_result", None, &format!("op {opn}: {res} but the point exists")),
+                        (_, None) => m.fail("update_result", None, &format!("op {opn}: {res} but the point does not exist")),
                         ("noevent", Some(_)) => {}
                         (k, Some(pt)) => {
                             // created <id> | overflow <created> <discarded>
                             let id: u64 = p[1].parse().unwrap();
-                            if pt.class == 0 || rf.ev_max == 0 {
-                                m.fail("event_only_for_class_points", None, &format!("op {opn}: {res} for class {} evmax {}", pt.class, rf.ev_max));
+                            let evmax = rf.ev_max[ty.idx()];
+                            if pt.class == 0 || evmax == 0 {
+                                m.fail("event_only_for_class_points", None, &format!("op {opn}: {res} for class {} evmax {evmax}", pt.class));
                             }
                             if let Some(last) = rf.ledger.last() {
                                 if id <= last.id {
                                     m.fail("event_ids_increase", None, &format!("op {opn}: id {id} after {}", last.id));
                                 }
                             }
-                            let live = rf.live_of_type(analog) as u64;
+                            let live = rf.live_of_type(ty) as u64;
                             if k == "overflow" {
                                 let disc: u64 = p[2].parse().unwrap();
                                 // the oldest live event of that type must be the one discarded
-                                let oldest = rf.ledger.iter().position(|e| e.state == LState::Live && e.analog == analog);
+                                let oldest = rf.ledger.iter().position(|e| e.state == LState::Live && e.ty == ty);
                                 match oldest {
-                                    Some(pos) if rf.ledger[pos].id == disc && live == rf.ev_max => {
+                                    Some(pos) if rf.ledger[pos].id == disc && live == evmax => {
                                         if rf.ledger[pos].carried {
                                             rf.d3_happened = true;
                                             m.stats.hit("d3_written_record_discarded");
@@ -543,17 +831,18 @@ pub fn run(ops: &str, out: &mut dyn Write, mon_w: &mut dyn Write) {
                                         rf.ledger[pos].state = LState::Discarded;
                                     }
                                     _ => {
-                                        m.fail("overflow_discards_oldest_of_type", None, &format!("op {opn}: {res}; live of type {live}, evmax {}, oldest {:?}", rf.ev_max, oldest.map(|p| rf.ledger[p].id)));
+                                        m.fail("overflow_discards_oldest_of_type", None, &format!("op {opn}: {res}; live of type {} {live}, evmax {evmax}, oldest {:?}", ty.code(), oldest.map(|p| rf.ledger[p].id)));
                                         if let Some(e) = rf.ledger.iter_mut().find(|e| e.id == disc) {
                                             e.state = LState::Discarded;
                                         }
                                     }
                                 }
                                 rf.overflow_flag = true;
-                            } else if live >= rf.ev_max {
-                                m.fail("type_capacity_respected", None, &format!("op {opn}: created with {live} live events of the type, evmax {}", rf.ev_max));
+                                m.stats.hit(&format!("overflow_{}", ty.code()));
+                            } else if live >= evmax {
+                                m.fail("type_capacity_respected", None, &format!("op {opn}: created with {live} live events of type {}, evmax {evmax}", ty.code()));
                             }
-                            rf.ledger.push(LedgerEv { id, analog, index: idx, value, flags, time, class: pt.class, state: LState::Live, carried: false });
+                            rf.ledger.push(LedgerEv { id, ty, index: idx, val, class: pt.class, state: LState::Live, carried: false });
                         }
                     }
                     writeln!(out, "ok").unwrap();
@@ -627,14 +916,15 @@ pub fn run(ops: &str, out: &mut dyn Write, mon_w: &mut dyn Write) {
                             let mut pos = 0usize;
                             let mut matched = 0usize;
                             for eo in &pr.events {
-                                let analog = eo.g == 32;
                                 let mut found = None;
-                                for k in pos..rf.ledger.len() {
-                                    let e = &rf.ledger[k];
-                                    if e.state == LState::Live && !e.carried && e.analog == analog && e.index == eo.idx {
-                                        if ref_event_obj(analog, eo.v, e.value, e.flags, e.time, eo.cto).as_deref() == Some(&eo.raw[..]) {
-                                            found = Some(k);
-                                            break;
+                                if let Some(ty) = Ty::from_event_group(eo.g) {
+                                    for k in pos..rf.ledger.len() {
+                                        let e = &rf.ledger[k];
+                                        if e.state == LState::Live && !e.carried && e.ty == ty && e.index == eo.idx {
+                                            if ref_event_obj(ty, eo.v, &e.val, eo.cto).as_deref() == Some(&eo.raw[..]) {
+                                                found = Some(k);
+                                                break;
+                                            }
                                         }
                                     }
                                 }
@@ -643,6 +933,7 @@ pub fn run(ops: &str, out: &mut dyn Write, mon_w: &mut dyn Write) {
                                         rf.ledger[k].carried = true;
                                         pos = k + 1;
                                         matched += 1;
+                                        m.stats.hit(&format!("event_g{}v{}", eo.g, if eo.g == 111 { 0 } else { eo.v }));
                                     }
                                     None => {
                                         m.fail("event_is_recorded_live_in_order", None, &format!("op {opn}: g{}v{} index {} raw {} matches no live uncarried event after position {pos}", eo.g, eo.v, eo.idx, hex(&eo.raw)));
@@ -668,16 +959,20 @@ pub fn run(ops: &str, out: &mut dyn Write, mon_w: &mut dyn Write) {
                             if !is_unsol {
                                 rf.got.extend(pr.statics.iter().cloned());
                                 m.stats.add("static_objects_seen", pr.statics.len() as u64);
-                                if !complete && bytes.is_empty() && cap >= 32 {
+                                for (g, v, _, _) in &pr.ranges {
+                                    m.stats.hit(&format!("static_g{g}v{}", if *g == 110 { 0 } else { *v }));
+                                }
+                                // an octet string of up to 255 octets needs 7 + 255 octets for itself
+                                if !complete && bytes.is_empty() && cap >= 262 {
                                     m.fail("write_makes_progress", None, &format!("op {opn}: empty incomplete response with cap {cap}"));
                                 }
                                 if complete {
                                     if rf.series_open && !rf.series_unreliable {
-                                        let exp: Vec<StObj> = rf.expected.iter().map(|e| StObj { g: e.g, v: e.v, idx: e.idx, raw: e.raw.clone() }).collect();
-                                        if exp != rf.got {
+                                        if rf.expected != rf.got {
                                             // the first difference
+                                            let exp = &rf.expected;
                                             let k = exp.iter().zip(rf.got.iter()).position(|(a, b)| a != b).unwrap_or(exp.len().min(rf.got.len()));
-                                            let d12 = rf.got.get(k).map(|o| rf.d12_points.contains(&(o.g != 1, o.idx))).unwrap_or(false);
+                                            let d12 = rf.got.get(k).map(|o| Ty::from_static_group(if o.g == 34 { 30 } else { o.g }).map_or(false, |t| rf.d12_points.contains(&(t, o.idx)))).unwrap_or(false);
                                             m.fail(
                                                 "series_is_exact_snapshot",
                                                 if d12 { Some("D12") } else { None },
@@ -685,7 +980,7 @@ pub fn run(ops: &str, out: &mut dyn Write, mon_w: &mut dyn Write) {
                                             );
                                         } else {
                                             m.stats.hit("series_checked");
-                                            m.stats.add("series_objects_checked", exp.len() as u64);
+                                            m.stats.add("series_objects_checked", rf.expected.len() as u64);
                                         }
                                     }
                                     rf.end_series();
@@ -728,12 +1023,15 @@ pub fn run(ops: &str, out: &mut dyn Write, mon_w: &mut dyn Write) {
                             // nothing else left: remaining counts = live ledger
                             let cnt = |cl: u8| rf.ledger.iter().filter(|e| e.state == LState::Live && e.class == cl).count();
                             let live = (cnt(1), cnt(2), cnt(3));
-                            if live != c.classes || (rf.live_of_type(false), rf.live_of_type(true)) != c.types || c.other_types != 0 {
-                                m.fail("kept_until_released_or_discarded", None, &format!("op {opn}: buffer reports classes {:?} types {:?}, ledger has {:?} / ({}, {})", c.classes, c.types, live, rf.live_of_type(false), rf.live_of_type(true)));
+                            let live_types: Vec<usize> = Ty::ALL.iter().map(|t| rf.live_of_type(*t)).collect();
+                            if live != c.classes || live_types[..] != c.types[..] {
+                                m.fail("kept_until_released_or_discarded", None, &format!("op {opn}: buffer reports classes {:?} types {:?}, ledger has {:?} / {:?}", c.classes, c.types, live, live_types));
                             }
                             // overflow flag: cleared by a clear that leaves every type below capacity
-                            if rf.ev_max == 0 || (rf.live_of_type(false) as u64) < rf.ev_max && (rf.live_of_type(true) as u64) < rf.ev_max {
+                            if !rf.any_type_full() {
                                 rf.overflow_flag = false;
+                            } else if rf.overflow_flag {
+                                m.stats.hit("clear_leaves_a_type_full");
                             }
                             // the library leaves the static selection alone on clear; the series goes on
                         }
@@ -796,16 +1094,17 @@ const BOUNDARY_IDX: [u16; 9] = [0, 1, 7, 8, 255, 256, 257, 65534, 65535];
 
 /// generator-side picture of the case (only to aim the ops; no oracle)
 struct GState {
-    bins: Vec<u16>,
-    ans: Vec<u16>,
+    pts: [Vec<u16>; 8],
+    /// the types this case uses
+    active: Vec<Ty>,
     time: u64,
     counter: i64,
     dense: bool,
 }
 
 impl GState {
-    fn some_index(&self, r: &mut Rng, analog: bool) -> u16 {
-        let v = if analog { &self.ans } else { &self.bins };
+    fn some_index(&self, r: &mut Rng, ty: Ty) -> u16 {
+        let v = &self.pts[ty.idx()];
         if v.is_empty() || r.chance(1, 12) {
             if r.chance(1, 2) { *r.pick(&BOUNDARY_IDX) } else { r.below(65536) as u16 }
         } else {
@@ -821,6 +1120,15 @@ impl GState {
                 1 => r.below(600) as u16,
                 _ => r.below(65536) as u16,
             }
+        }
+    }
+    fn some_type(&self, r: &mut Rng) -> Ty {
+        if self.active.is_empty() || r.chance(1, 15) { *r.pick(&Ty::ALL) } else { *r.pick(&self.active) }
+    }
+    fn note(&mut self, ty: Ty, idx: u16) {
+        let v = &mut self.pts[ty.idx()];
+        if !v.contains(&idx) {
+            v.push(idx);
         }
     }
 }
@@ -846,12 +1154,12 @@ fn count_hdr(g: u8, v: u8, n: u16, r: &mut Rng) -> Vec<u8> {
     }
 }
 
-fn pick_range(gs: &GState, r: &mut Rng, analog: bool) -> (u16, u16) {
-    let a = gs.some_index(r, analog);
+fn pick_range(gs: &GState, r: &mut Rng, ty: Ty) -> (u16, u16) {
+    let a = gs.some_index(r, ty);
     let b = match r.below(5) {
         0 => a,
         1 => a.saturating_add(r.below(10) as u16),
-        2 => gs.some_index(r, analog),
+        2 => gs.some_index(r, ty),
         3 => a.saturating_add(r.below(400) as u16),
         _ => 65535,
     };
@@ -869,6 +1177,17 @@ fn limit(r: &mut Rng) -> u16 {
     }
 }
 
+/// a requested variation of a static / event group: 0 or one the group has (`wide`), else 0 / the usual one
+fn req_var(r: &mut Rng, vars: &[u8], wide: bool) -> u8 {
+    if vars.is_empty() || r.chance(1, 3) {
+        0
+    } else if wide {
+        *r.pick(vars)
+    } else {
+        vars[0]
+    }
+}
+
 /// one READ object header
 fn gen_header(gs: &GState, r: &mut Rng, wide: bool) -> Vec<u8> {
     let k = r.below(100);
@@ -876,31 +1195,41 @@ fn gen_header(gs: &GState, r: &mut Rng, wide: bool) -> Vec<u8> {
         // class polls
         let v = r.range(1, 4) as u8;
         if v == 1 || r.chance(2, 3) { vec![60, v, 0x06] } else { count_hdr(60, v, limit(r), r) }
-    } else if k < 37 {
-        let v = if wide { r.below(3) as u8 } else { *r.pick(&[0u8, 2]) };
-        if r.chance(1, 3) { vec![1, v, 0x06] } else { let (a, b) = pick_range(gs, r, false); range_hdr(1, v, a, b, r) }
     } else if k < 52 {
-        let v = if wide { r.below(7) as u8 } else { *r.pick(&[0u8, 1]) };
-        if r.chance(1, 3) { vec![30, v, 0x06] } else { let (a, b) = pick_range(gs, r, true); range_hdr(30, v, a, b, r) }
-    } else if k < 64 {
-        let v = if wide { r.below(4) as u8 } else { *r.pick(&[0u8, 1]) };
-        if r.chance(1, 2) { vec![2, v, 0x06] } else { count_hdr(2, v, limit(r), r) }
+        // static data of one type: all objects or a range, default or specific variation
+        let ty = gs.some_type(r);
+        let v = req_var(r, ty.static_vars(), wide);
+        let g = ty.static_group();
+        if r.chance(1, 3) { vec![g, v, 0x06] } else { let (a, b) = pick_range(gs, r, ty); range_hdr(g, v, a, b, r) }
     } else if k < 76 {
-        let v = if wide { r.below(9) as u8 } else { *r.pick(&[0u8, 1]) };
-        if r.chance(1, 2) { vec![32, v, 0x06] } else { count_hdr(32, v, limit(r), r) }
+        // events of one type: all or count-limited
+        let ty = gs.some_type(r);
+        let v = req_var(r, ty.event_vars(), wide);
+        let g = ty.event_group();
+        if r.chance(1, 2) { vec![g, v, 0x06] } else { count_hdr(g, v, limit(r), r) }
     } else if k < 80 {
         // analog dead-bands: ranged needs a specific variation
-        if r.chance(1, 2) { vec![34, r.below(4) as u8, 0x06] } else { let (a, b) = pick_range(gs, r, true); range_hdr(34, r.range(1, 3) as u8, a, b, r) }
-    } else if k < 88 {
-        // static types with no points
-        let (g, vs): (u8, &[u8]) = *r.pick(&[(3u8, &[0u8, 1, 2][..]), (10, &[0, 1, 2]), (20, &[0, 1, 2, 5, 6]), (21, &[0, 1, 2, 5, 6, 9, 10]), (40, &[0, 1, 2, 3, 4]), (110, &[0]), (31, &[0, 1, 2, 3, 4, 5, 6, 7, 8])]);
-        let v = *r.pick(vs);
-        if r.chance(1, 2) { vec![g, v, 0x06] } else { let an = r.chance(1, 2); let (a, b) = pick_range(gs, r, an); range_hdr(g, v, a, b, r) }
+        if r.chance(1, 2) { vec![34, r.below(4) as u8, 0x06] } else { let (a, b) = pick_range(gs, r, Ty::An); range_hdr(34, r.range(1, 3) as u8, a, b, r) }
+    } else if k < 86 {
+        // frozen analogs: known, not supported, no indication
+        let v = r.below(9) as u8;
+        match r.below(3) {
+            0 => vec![31, v, 0x06],
+            1 => { let (a, b) = pick_range(gs, r, Ty::An); range_hdr(31, v, a, b, r) }
+            _ => if r.chance(1, 2) { vec![33, v, 0x06] } else { count_hdr(33, v, limit(r), r) },
+        }
     } else if k < 93 {
-        // event types with no points
-        let (g, vs): (u8, &[u8]) = *r.pick(&[(4u8, &[0u8, 1, 2, 3][..]), (11, &[0, 1, 2]), (22, &[0, 1, 2, 5, 6]), (23, &[0, 1, 2, 5, 6]), (42, &[0, 1, 2, 3, 4, 5, 6, 7, 8]), (33, &[0, 1, 2, 3, 4, 5, 6, 7, 8]), (111, &[0])]);
-        let v = *r.pick(vs);
-        if r.chance(1, 2) { vec![g, v, 0x06] } else { count_hdr(g, v, limit(r), r) }
+        // any static / event group with any of its variations (types the case does not use included)
+        let ty = *r.pick(&Ty::ALL);
+        if r.chance(1, 2) {
+            let v = req_var(r, ty.static_vars(), true);
+            let g = ty.static_group();
+            if r.chance(1, 2) { vec![g, v, 0x06] } else { let (a, b) = pick_range(gs, r, ty); range_hdr(g, v, a, b, r) }
+        } else {
+            let v = req_var(r, ty.event_vars(), true);
+            let g = ty.event_group();
+            if r.chance(1, 2) { vec![g, v, 0x06] } else { count_hdr(g, v, limit(r), r) }
+        }
     } else if k < 97 {
         // parse, but not supported in READ
         match r.below(9) {
@@ -914,26 +1243,30 @@ fn gen_header(gs: &GState, r: &mut Rng, wide: bool) -> Vec<u8> {
             }
             7 => vec![0, *r.pick(&[254u8, 255, 1, 200, 252]), 0x06],
             8 => {
-                let (a, b) = if r.chance(2, 3) { let x = r.below(4) as u16; (x, x) } else { pick_range(gs, r, false) };
+                let (a, b) = if r.chance(2, 3) { let x = r.below(4) as u16; (x, x) } else { pick_range(gs, r, Ty::Bin) };
                 range_hdr(0, *r.pick(&[254u8, 255, 255, 1, 200]), a, b, r)
             }
             0 => vec![13, r.range(1, 2) as u8, 0x06],
             1 => count_hdr(13, r.range(1, 2) as u8, limit(r), r),
             2 => vec![43, r.range(1, 8) as u8, 0x06],
-            3 => { let (a, b) = pick_range(gs, r, false); range_hdr(80, 1, a, b, r) }
+            3 => { let (a, b) = pick_range(gs, r, Ty::Bin); range_hdr(80, 1, a, b, r) }
             4 => vec![102, r.below(2) as u8, 0x06],
             _ => count_hdr(111, r.range(1, 255) as u8, limit(r), r),
         }
     } else {
         // rejected by the parser
-        match r.below(8) {
-            0 => { let (a, b) = pick_range(gs, r, false); range_hdr(2, 1, a, b, r) }
+        match r.below(12) {
+            0 => { let (a, b) = pick_range(gs, r, Ty::Bin); range_hdr(2, 1, a, b, r) }
             1 => count_hdr(1, 2, 3, r),
             2 => { let mut h = vec![30, 1, 0x01]; h.extend_from_slice(&9u16.to_le_bytes()); h.extend_from_slice(&3u16.to_le_bytes()); h }
             3 => vec![5, 1, 0x06],
             4 => vec![1, 3, 0x06],
             5 => vec![60, 1, 0x07, 2],
             6 => vec![30, 1, 0x01, 0x00],
+            7 => vec![21, *r.pick(&[3u8, 4, 7, 8, 11]), 0x06],
+            8 => { let (a, b) = pick_range(gs, r, Ty::Os); range_hdr(110, r.range(1, 255) as u8, a, b, r) }
+            9 => vec![110, r.range(1, 255) as u8, 0x06],
+            10 => count_hdr(21, 1, 3, r),
             _ => vec![1, 2, 0x02],
         }
     }
@@ -963,8 +1296,8 @@ fn gen_cap(r: &mut Rng) -> usize {
     }
 }
 
-fn gen_upd(gs: &mut GState, r: &mut Rng, analog: bool) -> String {
-    let idx = gs.some_index(r, analog);
+fn gen_upd(gs: &mut GState, r: &mut Rng, ty: Ty) -> String {
+    let idx = gs.some_index(r, ty);
     gs.counter += 1;
     gs.time = match r.below(12) {
         0 => gs.time + 65535,
@@ -973,8 +1306,30 @@ fn gen_upd(gs: &mut GState, r: &mut Rng, analog: bool) -> String {
         3 => gs.time + r.below(200_000),
         _ => gs.time + r.below(40),
     };
-    let value: i64 = if analog {
-        match r.below(14) {
+    let flags: u8 = match r.below(8) {
+        0 => r.next() as u8,
+        1 => 0x81,
+        2 => 0x02,
+        3 => 0x21,
+        4 => *r.pick(&[0x41u8, 0xC1, 0x01]),
+        _ => 0x01,
+    };
+    if ty == Ty::Os {
+        let n = match r.below(12) {
+            0 => 0usize,
+            1 => 255,
+            2 => r.range(200, 255) as usize,
+            3 => r.range(1, 40) as usize,
+            _ => r.range(1, 4) as usize,
+        };
+        let mut o = r.bytes(n);
+        if !o.is_empty() {
+            o[0] = gs.counter as u8;
+        }
+        return format!("upd os {} {} {} {}", idx, hex(&o), flags, gs.time);
+    }
+    let value: i64 = match ty {
+        Ty::An | Ty::Aos => match r.below(14) {
             0 => *r.pick(&[i32::MAX as i64, i32::MAX as i64 + 1, i32::MIN as i64, i32::MIN as i64 - 1, 32767, 32768, -32768, -32769, 0, -1]),
             1 => (1i64 << 40) + gs.counter,
             2 => -(1i64 << 40) - gs.counter,
@@ -982,44 +1337,134 @@ fn gen_upd(gs: &mut GState, r: &mut Rng, analog: bool) -> String {
             4 => -gs.counter,
             5 => gs.counter * 70000,
             _ => gs.counter,
-        }
-    } else {
-        r.below(2) as i64
+        },
+        Ty::Ctr | Ty::Frz => match r.below(10) {
+            0 => *r.pick(&[0i64, 65535, 65536, 65537, u32::MAX as i64, u32::MAX as i64 - 1]),
+            1 => 65536 * gs.counter + 7,
+            2 => (1i64 << 31) + gs.counter,
+            _ => gs.counter,
+        },
+        Ty::Dbl => r.below(4) as i64,
+        _ => r.below(2) as i64,
     };
-    let flags: u8 = match r.below(8) {
-        0 => r.next() as u8,
-        1 => 0x81,
-        2 => 0x02,
-        3 => 0x21,
-        _ => 0x01,
-    };
-    format!("upd {} {} {} {} {}", if analog { "an" } else { "bin" }, idx, value, flags, gs.time)
+    format!("upd {} {} {} {} {}", ty.code(), idx, value, flags, gs.time)
 }
 
-fn setup(g: &mut Gen, r: &mut Rng, evmax: u16, n_bin: usize, n_an: usize, dense: bool) -> GState {
-    let mut gs = GState { bins: vec![], ans: vec![], time: r.below(1 << 40), counter: 0, dense };
-    if r.chance(1, 25) {
-        g.line(&format!("new {} {}", evmax, *r.pick(&[1u16, 63, 64, 65, 70])));
+/// per-type event capacities: uniform, or each type its own (0 included)
+fn gen_evcfg(r: &mut Rng, base: u16) -> [u16; 8] {
+    let mut ev = [base; 8];
+    match r.below(4) {
+        0 => {}
+        1 => {
+            for e in ev.iter_mut() {
+                *e = *r.pick(&[0u16, 1, 2, 3, 5, base]);
+            }
+        }
+        2 => {
+            // one type tighter / wider than the others
+            ev[r.below(8) as usize] = *r.pick(&[0u16, 1, 2, base.saturating_add(3)]);
+        }
+        _ => {
+            for e in ev.iter_mut() {
+                *e = base.saturating_add(r.below(3) as u16);
+            }
+        }
+    }
+    ev
+}
+
+fn add_line(r: &mut Rng, ty: Ty, idx: u16, cls: u64) -> String {
+    if ty != Ty::Os && r.chance(1, 2) {
+        let base = format!("add {} {} {} {} {}", ty.code(), idx, cls, *r.pick(ty.static_vars()), *r.pick(ty.event_vars()));
+        if has_deadband(ty) && r.chance(1, 3) {
+            // a dead-band: small ones are crossed by the counting values of `gen_upd`
+            format!("{base} {}", *r.pick(&[1u32, 1, 2, 3, 5, 100, 65535, 1_000_000]))
+        } else {
+            base
+        }
     } else {
-        g.line(&format!("new {evmax}"));
+        format!("add {} {} {}", ty.code(), idx, cls)
+    }
+}
+
+/// an update line with `UpdateOptions` other than the default once in a while
+fn with_opts(r: &mut Rng, upd: String) -> String {
+    if r.chance(1, 8) {
+        format!("updo{} {}", &upd[3..], r.below(6))
+    } else {
+        upd
+    }
+}
+
+/// `counts`: how many points of each type
+fn setup(g: &mut Gen, r: &mut Rng, evmax: u16, counts: &[(Ty, usize)], dense: bool, legacy: bool) -> GState {
+    let mut gs = GState { pts: Default::default(), active: counts.iter().filter(|c| c.1 > 0).map(|c| c.0).collect(), time: r.below(1 << 40), counter: 0, dense };
+    let sel = if r.chance(1, 25) { format!(" {}", *r.pick(&[1u16, 63, 64, 65, 70])) } else { String::new() };
+    if legacy {
+        g.line(&format!("new {evmax}{sel}"));
+    } else {
+        let ev = gen_evcfg(r, evmax);
+        let cz: u8 = match r.below(6) {
+            0 => 0xFF,
+            1 => r.next() as u8,
+            _ => 0x7F,
+        };
+        g.line(&format!("newc {} {cz}{sel}", ev.iter().map(|e| e.to_string()).collect::<Vec<_>>().join(" ")));
     }
     let class_mode = r.below(4);
-    for k in 0..(n_bin + n_an) {
-        let analog = k >= n_bin;
-        let idx = if dense && r.chance(7, 8) { (if analog { k - n_bin } else { k }) as u16 } else { gs.new_index(r) };
-        let cls = match class_mode {
-            0 => 1,
-            1 => r.range(1, 3),
-            2 => r.below(4),
-            _ => *r.pick(&[0u64, 1, 2, 3, 4, 255]),
-        };
-        g.line(&format!("add {} {} {}", if analog { "an" } else { "bin" }, idx, cls));
-        let v = if analog { &mut gs.ans } else { &mut gs.bins };
-        if !v.contains(&idx) {
-            v.push(idx);
+    for (ty, n) in counts {
+        for k in 0..*n {
+            let idx = if dense && r.chance(7, 8) { k as u16 } else { gs.new_index(r) };
+            let cls = match class_mode {
+                0 => 1,
+                1 => r.range(1, 3),
+                2 => r.below(4),
+                _ => *r.pick(&[0u64, 1, 2, 3, 4, 255]),
+            };
+            g.line(&if legacy { format!("add {} {} {}", ty.code(), idx, cls) } else { add_line(r, *ty, idx, cls) });
+            gs.note(*ty, idx);
         }
     }
     gs
+}
+
+/// which types a case uses and how many points of each: the two original types only (`legacy`), one to
+/// four types, or all eight
+fn gen_counts(r: &mut Rng, legacy: bool, small: usize, big: usize) -> Vec<(Ty, usize)> {
+    if legacy {
+        let (nb, na) = match r.below(4) {
+            0 => (r.range(0, 3) as usize, r.range(0, 3) as usize),
+            1 => (r.range(1, small as u64) as usize, r.range(1, small as u64) as usize),
+            2 => (r.range(0, big as u64) as usize, r.range(0, 6) as usize),
+            _ => (r.range(0, 6) as usize, r.range(0, big as u64) as usize),
+        };
+        return vec![(Ty::Bin, nb), (Ty::An, na)];
+    }
+    let ntypes = match r.below(6) {
+        0 => 8,
+        1 => 1,
+        2 | 3 => 2,
+        _ => r.range(3, 4) as usize,
+    };
+    let mut tys: Vec<Ty> = Ty::ALL.to_vec();
+    // partial shuffle
+    for i in 0..ntypes {
+        let j = i + r.below((8 - i) as u64) as usize;
+        tys.swap(i, j);
+    }
+    tys.truncate(ntypes);
+    tys.sort();
+    tys.iter()
+        .map(|t| {
+            let n = match r.below(4) {
+                0 => r.range(0, 3) as usize,
+                1 => r.range(1, small as u64) as usize,
+                2 => r.range(0, (big / ntypes.max(1)).max(2) as u64) as usize,
+                _ => r.range(1, 6) as usize,
+            };
+            (*t, n)
+        })
+        .collect()
 }
 
 pub fn gen(thorough: bool, seed: u64, w: &mut dyn Write) {
@@ -1038,6 +1483,43 @@ pub fn gen(thorough: bool, seed: u64, w: &mut dyn Write) {
         g.line(l);
     }
 
+    // (0c) every type once: a point in class 1, an update, read its events and its static value in every
+    //      variation it has (all objects and a range), confirm
+    for ty in Ty::ALL {
+        g.hdr("alltypes", &format!("type={}", ty.code()));
+        g.line("newc 3 3 3 3 3 3 3 3 255");
+        for idx in [3u16, 4, 5, 9] {
+            g.line(&format!("add {} {} 1", ty.code(), idx));
+        }
+        let mut gs = GState { pts: Default::default(), active: vec![ty], time: 1000, counter: 0, dense: true };
+        for idx in [3u16, 4, 5, 9] {
+            gs.note(ty, idx);
+        }
+        for _ in 0..3 {
+            let l = gen_upd(&mut gs, &mut r, ty);
+            g.line(&l);
+        }
+        let mut svars = vec![0u8];
+        svars.extend_from_slice(ty.static_vars());
+        for v in svars {
+            g.line(&format!("select {}", hex(&[ty.static_group(), v, 0x06])));
+            g.line("write 2044");
+            g.line(&format!("select {}", hex(&[ty.static_group(), v, 0x00, 4, 9])));
+            g.line("write 2044");
+        }
+        let mut evars = vec![0u8];
+        evars.extend_from_slice(ty.event_vars());
+        for v in evars {
+            g.line(&format!("select {}", hex(&[ty.event_group(), v, 0x06])));
+            g.line("write 2044");
+            g.line("reset");
+        }
+        g.line("select 3c0206");
+        g.line("write 2044");
+        g.line("clear");
+        g.line("iin");
+    }
+
     // (1) random op sequences
     let n_rand = if thorough { 60000 } else { 4000 };
     for _ in 0..n_rand {
@@ -1051,20 +1533,17 @@ pub fn gen(thorough: bool, seed: u64, w: &mut dyn Write) {
         };
         let dense = r.chance(1, 2);
         let wide = r.chance(1, 2);
-        g.hdr("rand", &format!("evmax={evmax} wide={}", wide as u8));
-        let (nb, na) = match r.below(4) {
-            0 => (r.range(0, 3) as usize, r.range(0, 3) as usize),
-            1 => (r.range(1, 12) as usize, r.range(1, 12) as usize),
-            2 => (r.range(0, 40) as usize, r.range(0, 6) as usize),
-            _ => (r.range(0, 6) as usize, r.range(0, 40) as usize),
-        };
-        let mut gs = setup(&mut g, &mut r, evmax, nb, na, dense);
+        let legacy = r.chance(1, 4);
+        g.hdr("rand", &format!("evmax={evmax} wide={} legacy={}", wide as u8, legacy as u8));
+        let counts = gen_counts(&mut r, legacy, 12, 40);
+        let mut gs = setup(&mut g, &mut r, evmax, &counts, dense, legacy);
         let len = r.range(5, 60);
         for _ in 0..len {
             match r.below(100) {
                 0..=29 => {
-                    let analog = r.chance(1, 2);
-                    let l = gen_upd(&mut gs, &mut r, analog);
+                    let ty = gs.some_type(&mut r);
+                    let l = gen_upd(&mut gs, &mut r, ty);
+                    let l = if legacy { l } else { with_opts(&mut r, l) };
                     g.line(&l);
                 }
                 30..=49 => {
@@ -1077,13 +1556,11 @@ pub fn gen(thorough: bool, seed: u64, w: &mut dyn Write) {
                 83..=89 => g.line(&format!("unsol {}{}{} {}", r.below(2), r.below(2), r.below(2), gen_cap(&mut r))),
                 90..=96 => g.line("iin"),
                 _ => {
-                    let analog = r.chance(1, 2);
+                    let ty = gs.some_type(&mut r);
                     let idx = gs.new_index(&mut r);
-                    g.line(&format!("add {} {} {}", if analog { "an" } else { "bin" }, idx, r.below(4)));
-                    let v = if analog { &mut gs.ans } else { &mut gs.bins };
-                    if !v.contains(&idx) {
-                        v.push(idx);
-                    }
+                    let cls = r.below(4);
+                    g.line(&if legacy { format!("add {} {} {}", ty.code(), idx, cls) } else { add_line(&mut r, ty, idx, cls) });
+                    gs.note(ty, idx);
                 }
             }
         }
@@ -1095,14 +1572,15 @@ pub fn gen(thorough: bool, seed: u64, w: &mut dyn Write) {
     for _ in 0..n_series {
         let evmax = *r.pick(&[0u16, 2, 5, 50]);
         let wide = r.chance(2, 3);
-        g.hdr("series", &format!("evmax={evmax} wide={}", wide as u8));
+        let legacy = r.chance(1, 4);
+        g.hdr("series", &format!("evmax={evmax} wide={} legacy={}", wide as u8, legacy as u8));
         let dense = r.chance(2, 3);
-        let (nb, na) = (r.range(0, 120) as usize, r.range(0, 80) as usize);
-        let mut gs = setup(&mut g, &mut r, evmax, nb, na, dense);
+        let counts = if legacy { vec![(Ty::Bin, r.range(0, 120) as usize), (Ty::An, r.range(0, 80) as usize)] } else { gen_counts(&mut r, false, 40, 160) };
+        let mut gs = setup(&mut g, &mut r, evmax, &counts, dense, legacy);
         let n_upd = r.range(0, 30);
         for _ in 0..n_upd {
-            let analog = r.chance(1, 2);
-            let l = gen_upd(&mut gs, &mut r, analog);
+            let ty = gs.some_type(&mut r);
+            let l = gen_upd(&mut gs, &mut r, ty);
             g.line(&l);
         }
         let rounds = r.range(1, 3);
@@ -1110,10 +1588,17 @@ pub fn gen(thorough: bool, seed: u64, w: &mut dyn Write) {
             if r.chance(1, 2) {
                 g.line("reset");
             }
-            let l = match r.below(4) {
+            let l = match r.below(5) {
                 0 => format!("select {}", hex(&[60, 2, 6, 60, 3, 6, 60, 4, 6, 60, 1, 6])),
                 1 => format!("select {}", hex(&[60, 1, 6])),
                 2 if wide => format!("select {}", hex(&[1, 1, 6, 30, *r.pick(&[2u8, 3, 4, 5, 6]), 6])),
+                3 if !gs.active.is_empty() => {
+                    // one type, ranged, a specific variation
+                    let ty = *r.pick(&gs.active);
+                    let v = req_var(&mut r, ty.static_vars(), true);
+                    let (a, b) = pick_range(&gs, &mut r, ty);
+                    format!("select {}", hex(&range_hdr(ty.static_group(), v, a, b, &mut r)))
+                }
                 _ => gen_select(&gs, &mut r, wide),
             };
             g.line(&l);
@@ -1128,20 +1613,19 @@ pub fn gen(thorough: bool, seed: u64, w: &mut dyn Write) {
                 g.line(&format!("write {cap}"));
                 match r.below(10) {
                     0 | 1 => {
-                        let analog = r.chance(1, 2);
-                        let l = gen_upd(&mut gs, &mut r, analog);
+                        let ty = gs.some_type(&mut r);
+                        let l = gen_upd(&mut gs, &mut r, ty);
+                        let l = if legacy { l } else { with_opts(&mut r, l) };
                         g.line(&l);
                     }
                     2 => {
                         // add inside / near the selected range
-                        let analog = r.chance(1, 2);
-                        let v = if analog { &gs.ans } else { &gs.bins };
+                        let ty = gs.some_type(&mut r);
+                        let v = &gs.pts[ty.idx()];
                         let idx = if v.is_empty() { gs.new_index(&mut r) } else { r.pick(v).saturating_add(r.range(1, 3) as u16) };
-                        g.line(&format!("add {} {} {}", if analog { "an" } else { "bin" }, idx, r.below(4)));
-                        let v = if analog { &mut gs.ans } else { &mut gs.bins };
-                        if !v.contains(&idx) {
-                            v.push(idx);
-                        }
+                        let cls = r.below(4);
+                        g.line(&if legacy { format!("add {} {} {}", ty.code(), idx, cls) } else { add_line(&mut r, ty, idx, cls) });
+                        gs.note(ty, idx);
                     }
                     3 => g.line("clear"),
                     4 => g.line("iin"),
@@ -1151,29 +1635,115 @@ pub fn gen(thorough: bool, seed: u64, w: &mut dyn Write) {
         }
     }
 
-    // (3) overflow-directed: tiny buffers, carried events, discards, clears, class bits
+    // (3) overflow-directed: tiny buffers (per type), carried events, discards, clears, class bits
     let n_ovf = if thorough { 20000 } else { 1500 };
     for _ in 0..n_ovf {
         let evmax = *r.pick(&[1u16, 1, 2, 2, 5]);
-        g.hdr("overflow", &format!("evmax={evmax}"));
-        let (nb, na) = (r.range(1, 4) as usize, r.range(0, 3) as usize);
-        let mut gs = setup(&mut g, &mut r, evmax, nb, na, true);
+        let legacy = r.chance(1, 4);
+        g.hdr("overflow", &format!("evmax={evmax} legacy={}", legacy as u8));
+        let counts: Vec<(Ty, usize)> = if legacy {
+            vec![(Ty::Bin, r.range(1, 4) as usize), (Ty::An, r.range(0, 3) as usize)]
+        } else {
+            gen_counts(&mut r, false, 4, 8).into_iter().map(|(t, n)| (t, n.clamp(1, 4))).collect()
+        };
+        let mut gs = setup(&mut g, &mut r, evmax, &counts, true, legacy);
         let len = r.range(5, 40);
+        // a favourite type is updated most of the time, so that it fills while the others do not
+        let fav = gs.some_type(&mut r);
         for _ in 0..len {
             match r.below(20) {
                 0..=8 => {
-                    let analog = !gs.ans.is_empty() && r.chance(1, 3);
-                    let l = gen_upd(&mut gs, &mut r, analog);
+                    let ty = if r.chance(1, 2) { fav } else { gs.some_type(&mut r) };
+                    let l = gen_upd(&mut gs, &mut r, ty);
                     g.line(&l);
                 }
                 9 | 10 => g.line(&format!("unsol {}{}{} {}", r.below(2), r.below(2), r.below(2), *r.pick(&[8usize, 16, 30, 300]))),
-                11 | 12 => g.line(&format!("select {}", hex(&[60, r.range(2, 4) as u8, 6]))),
+                11 => g.line(&format!("select {}", hex(&[60, r.range(2, 4) as u8, 6]))),
+                12 => {
+                    // events of one type only: a confirm then leaves the other types as they are
+                    let ty = gs.some_type(&mut r);
+                    g.line(&format!("select {}", hex(&[ty.event_group(), 0, 6])));
+                }
                 13 | 14 => g.line(&format!("write {}", *r.pick(&[8usize, 10, 20, 300]))),
                 15 | 16 => g.line("clear"),
                 17 => g.line("reset"),
                 _ => g.line("iin"),
             }
         }
+        g.line("iin");
+    }
+
+    // (4) dead-band-directed: points with a non-zero dead-band, values drifting in steps of dead-band - 1,
+    //     dead-band, dead-band + 1 away from / back to the value last reported as an event, accumulated drift,
+    //     forced / suppressed updates and updates that leave the static value alone in between
+    let n_drift = if thorough { 10000 } else { 800 };
+    for _ in 0..n_drift {
+        let evmax = *r.pick(&[0u16, 1, 3, 50, 50]);
+        g.hdr("drift", &format!("evmax={evmax}"));
+        g.line(&format!("newc {evmax} {evmax} {evmax} {evmax} {evmax} {evmax} {evmax} {evmax} 255"));
+        // (type, index, dead-band, generator's picture of the reported baseline, current value)
+        let mut pts: Vec<(Ty, u16, i64, i64, i64)> = Vec::new();
+        let np = r.range(1, 3);
+        for k in 0..np {
+            let ty = *r.pick(&[Ty::An, Ty::An, Ty::Aos, Ty::Ctr, Ty::Frz]);
+            let d = *r.pick(&[1i64, 2, 5, 5, 10, 100, 65535]);
+            let cls = if r.chance(1, 8) { 0 } else { r.range(1, 3) };
+            let (sv, ev) = ty.add_vars();
+            g.line(&format!("add {} {} {} {} {} {}", ty.code(), k, cls, sv, ev, d));
+            pts.push((ty, k as u16, d, 0, 0));
+        }
+        let mut time = 1000u64;
+        let len = r.range(6, 40);
+        for _ in 0..len {
+            let i = r.below(pts.len() as u64) as usize;
+            let (ty, idx, d, base, cur) = pts[i];
+            let counter = matches!(ty, Ty::Ctr | Ty::Frz);
+            match r.below(20) {
+                0..=13 => {
+                    let step = match r.below(12) {
+                        0 => d - 1,
+                        1 => d,
+                        2 => d + 1,
+                        3 => -(d - 1),
+                        4 => -d,
+                        5 => -(d + 1),
+                        6 => 1,
+                        7 => 2 * d,
+                        8 => base - cur,                 // back to the reported value
+                        9 => base + d - cur,             // exactly at the dead-band from the reported value
+                        10 => base + d + 1 - cur,        // just beyond
+                        _ => base - d - 1 - cur,
+                    };
+                    let mut v = cur + step;
+                    if counter {
+                        v = v.clamp(0, u32::MAX as i64);
+                    }
+                    time += r.range(1, 50);
+                    let flags: u8 = if r.chance(1, 12) { *r.pick(&[0x01u8, 0x21, 0x05]) } else { 0x01 };
+                    let opts = if r.chance(1, 7) { r.below(6) } else { 0 };
+                    if opts == 0 {
+                        g.line(&format!("upd {} {} {} {} {}", ty.code(), idx, v, flags, time));
+                    } else {
+                        g.line(&format!("updo {} {} {} {} {} {}", ty.code(), idx, v, flags, time, opts));
+                    }
+                    // the generator's picture (aim only): the baseline follows an event that is owed
+                    let mode = opts % 3;
+                    let owed = mode == 1 || (mode == 0 && ((v - base).abs() > d || flags != 0x01));
+                    pts[i].4 = v;
+                    if owed {
+                        pts[i].3 = v;
+                    }
+                }
+                14 => g.line(&format!("select {}", hex(&[60, r.range(2, 4) as u8, 6]))),
+                15 => g.line(&format!("select {}", hex(&[ty.event_group(), 0, 6, ty.static_group(), 0, 6]))),
+                16 => g.line(&format!("write {}", *r.pick(&[20usize, 60, 300, 2044]))),
+                17 => g.line("clear"),
+                18 => g.line(&format!("unsol 111 {}", *r.pick(&[30usize, 300]))),
+                _ => g.line("iin"),
+            }
+        }
+        g.line("select 3c0206");
+        g.line("write 2044");
         g.line("iin");
     }
 }
